@@ -112,6 +112,15 @@ class TaskHook:
         if exc == "OSError" and eng.cur_func.split("@")[0].endswith("Task.service"):
             eng.state.ghost["oserror_in_service"] = True       # a socket error surfaced while the response was being produced
 
+    def on_list_write(self, eng, lst=None, node=None, op=None, arg=None):
+        # C03: a response head that announces Keep-Alive.  Recorded where the header pair is queued; the clause is on build_response_header
+        if op == "append" and arg is not None and eng.cur_func.split("@")[0].endswith("build_response_header"):
+            a = eng.force(arg)
+            if isinstance(a, VTuple) and len(a.items) == 2:
+                k, v = strval(eng.force(a.items[0])), strval(eng.force(a.items[1]))
+                if k is not None and v is not None and k.lower() == "connection" and v.lower() == "keep-alive":
+                    eng.state.ghost["keepalive_announced"] = True
+
     def on_join(self, eng, sep=None, lst=None, res=None, node=None):
         if strval(sep) == "\r\n":
             m = eng.state.lists[lst.lid]
@@ -149,6 +158,7 @@ def install(reg):
     reg.install_std_specs()
     reg.elem_preds.update({"hdr_ok": pred_hdr_ok, "not_hop": pred_not_hop, "no_crlf": pred_no_crlf, "not_cl": pred_not_cl})
     reg.spec_funcs["oserror_in_service"] = lambda eng: VBool(bool(eng.state.ghost.get("oserror_in_service", False)))
+    reg.spec_funcs["keepalive_announced"] = lambda eng: VBool(bool(eng.state.ghost.get("keepalive_announced", False)))
     reg.spec_funcs.update({"no_crlf": no_crlf, "has_body": has_body_spec, "wire_endswith": wire_endswith, "final": final, "chunk_of": chunk_of, "writes": writes})
     reg.add_class(ClassSpec(SRVM, fields={"adj": Obj("adjustments.Adjustments"), "application": Opaque("app")}))
     reg.add_class(ClassSpec(CHM, fields={"server": Obj(SRVM), "adj": Obj("adjustments.Adjustments"), "wire": Bytes, "connected": Bool, "addr": Opaque("addr")},
@@ -227,6 +237,9 @@ def install(reg):
         ("C03-1.0-without-keepalive-closes", "implies(self.version == '1.0' and connection != 'keep-alive', self.close_on_finish)"),
         ("C03-1.1-connection-close-closes", "implies(self.version == '1.1' and connection == 'close', self.close_on_finish)"),
         ("C03-close-decision-kept", "implies(old(self.close_on_finish), self.close_on_finish)"),
+        # "a response that announces Keep-Alive (HTTP/1.0) is followed by normal service of the next request": never announced on a response
+        # after which the connection is closed (whoever took the close decision: this function, the parser, or the task before the head was built)
+        ("C03-keep-alive-is-announced-only-when-the-connection-is-kept", "implies(keepalive_announced(), not self.close_on_finish)"),
         ("C01-F7-parser-close-decision-honoured", "implies(self.request.connection_close, self.close_on_finish)"),
     ]
     LOCALS = {"must_close": Bool, "version": Str, "connection": Str, "content_length_header": Opt(Str), "date_header": Opt(Str), "server_header": Opt(Str)}
